@@ -302,7 +302,28 @@ func runC11(c *harness.Case) {
 	bounds = append(bounds, "", "j", "k", "l", "kz", "ka", "\xff\xff")
 	var hist []string
 	seqVal := 0
-	newVal := func() []byte { seqVal++; return []byte(fmt.Sprintf("v%d", seqVal)) }
+	// zero-length values are used on the engines that accept them (TiKV refuses to store one): a key holding an empty
+	// value exists like any other
+	allowEmpty := false
+	if strings.HasPrefix(eng.Kind, "memkv") || strings.HasPrefix(eng.Kind, "badger") {
+		pb := kv.BeginBatchWrite()
+		pb.Put([]byte("probe-empty"), []byte{}, 0)
+		if pb.Commit(ctx) == nil {
+			if v, gerr := kv.Get(ctx, []byte("probe-empty")); gerr == nil && len(v) == 0 {
+				allowEmpty = true
+			}
+			_ = kv.Del(ctx, []byte("probe-empty"))
+		}
+	}
+	newVal := func() []byte {
+		seqVal++
+		if allowEmpty && r.Intn(10) == 0 {
+			return []byte{}
+		}
+		return []byte(fmt.Sprintf("v%d", seqVal))
+	}
+	// a value certainly different from what the key holds (for "the key changed under the iterator")
+	otherVal := func() []byte { seqVal++; return []byte(fmt.Sprintf("v%d", seqVal)) }
 	wit := func() interface{} {
 		h := hist
 		if len(h) > 250 {
@@ -411,7 +432,7 @@ func runC11(c *harness.Case) {
 					changed := r.Intn(3) == 0
 					if changed {
 						// change the key after the iterator read it: delete-current must fail
-						v := newVal()
+						v := otherVal()
 						bb := kv.BeginBatchWrite()
 						bb.Put([]byte(k), v, 0)
 						if err := bb.Commit(ctx); err != nil {
@@ -518,7 +539,7 @@ func runC11(c *harness.Case) {
 			mode := r.Intn(3)
 			switch mode {
 			case 1:
-				v := newVal()
+				v := otherVal()
 				bb := kv.BeginBatchWrite()
 				bb.Put([]byte(k), v, 0)
 				bb.Commit(ctx)
